@@ -342,6 +342,25 @@ func (g *Graph) Facts() []Fact {
 				val bool
 			}
 			splitCond(br.Cond, val, &atoms)
+			// a boolean pure helper of the same package stands for the expression it returns (isData(t) is
+			// t == TextMessage || t == BinaryMessage): the atoms of that expression are established as well
+			done := map[ast.Expr]bool{}
+			for round := 0; round < 3; round++ {
+				grew := false
+				for i := 0; i < len(atoms); i++ {
+					if done[atoms[i].e] {
+						continue
+					}
+					done[atoms[i].e] = true
+					if x := g.U.ExpandPredicate(atoms[i].e); x != nil {
+						splitCond(x, atoms[i].val, &atoms)
+						grew = true
+					}
+				}
+				if !grew {
+					break
+				}
+			}
 			for _, a := range atoms {
 				b2 := br
 				b2.Cond = a.e
@@ -662,4 +681,67 @@ func (g *Graph) EdgeLeavesLoop(cb *cfg.Block, k int) bool {
 		return true
 	}
 	return walk(cb.Succs[k])
+}
+
+// splitDisj decomposes the fact "e evaluates to val" into a disjunction of
+// atoms (true edge of a||b, false edge of a&&b, through !): at least one of
+// the returned atoms holds with its Val. A single atom is returned as such.
+func splitDisj(e ast.Expr, val bool) []CondAtom {
+	e = ast.Unparen(e)
+	switch x := e.(type) {
+	case *ast.UnaryExpr:
+		if x.Op == token.NOT {
+			return splitDisj(x.X, !val)
+		}
+	case *ast.BinaryExpr:
+		if (x.Op == token.LOR && val) || (x.Op == token.LAND && !val) {
+			return append(splitDisj(x.X, val), splitDisj(x.Y, val)...)
+		}
+	}
+	return []CondAtom{{e, val}}
+}
+
+// DisjunctGuard: some branch edge that dominates loc establishes a proper
+// disjunction one of whose members is the fact recognised by guard. The other
+// members are returned: the caller decides whether the construct at loc may
+// also run when only one of them holds (e.g. two refusal tests with the same
+// body merged into one `if a || b`).
+func (g *Graph) DisjunctGuard(loc Loc, guard Guard) (bool, []CondAtom) {
+	for _, br := range g.Branches() {
+		if br.IsCase {
+			continue
+		}
+		for edge, val := range []bool{true, false} {
+			ds := splitDisj(br.Cond, val)
+			if len(ds) < 2 {
+				continue
+			}
+			hit := -1
+			for i, d := range ds {
+				b2 := br
+				b2.Cond = d.E
+				p := guard(g.U, b2)
+				if (p > 0 && d.Val) || (p < 0 && !d.Val) {
+					hit = i
+				}
+			}
+			if hit < 0 || !g.EdgeDominates(br.B, edge, loc) {
+				continue
+			}
+			var others []CondAtom
+			for i, d := range ds {
+				if i != hit {
+					others = append(others, d)
+				}
+			}
+			return true, others
+		}
+	}
+	return false, nil
+}
+
+// Establishes reports whether guard recognises the atom (with its value) as the fact it stands for.
+func (g *Graph) Establishes(guard Guard, a CondAtom, at *cfg.Block) bool {
+	p := guard(g.U, Branch{B: at, Cond: a.E})
+	return (p > 0 && a.Val) || (p < 0 && !a.Val)
 }
